@@ -72,9 +72,20 @@ MANIFEST = {
             "_establish_db_connection, _perform_data_manipulation, _application_loop) is translated (Gen/DatabaseBotTr.lean) and proved "
             "equal, for every bot state and every outcome of its calls, to the closed form State.dmAttack is written in "
             "(C17_tr_dm_advance, C17_tr_dm_loop; likewise the ransomware script's _application_loop / _perform_ransomware_encrypt / "
-            "_establish_db_connection and State.ransom, C17_tr_rs_loop; the step from that closed form to State.dmAttack itself is by the shared helper "
-            "functions dmAdvance / dmRepeatRule and the rig, not a theorem). Tie: regenerated tables (Gen/Database.lean, C17_gen_*), the translated functions "
-            "(59 method instances, one obligation each), and differential rig R-db on real client/server/backup hosts behind a router.",
+            "_establish_db_connection and State.ransom, C17_tr_rs_loop). SECOND SHIFT: (13) the step from the translated loops to the model's "
+            "State-threaded functions is a theorem for every state: State.dmAttack / State.ransom EQUAL the translated loop run against "
+            "the state - its calls (get_new_connection, the query over the bot's connection) answered by the model's own functions in the "
+            "state in which the code makes them, the writes its result flags applied (C17_tr_dm_attack_is_model, C17_tr_ransom_is_model). "
+            "(14) the property's sentences about `_process_sql` are stated branch by branch on the TRANSLATED method "
+            "(C17_gen_process_sql_encrypt / _delete / _select / _insert / _refuses: ENCRYPT leaves the file CORRUPT whatever its health "
+            "was, ...); the translator reads Folder.corrupt() / File.corrupt() off the source (GOOD -> CORRUPT only), and a counter-model "
+            "search over the method's whole domain (120 cells) names the server on which a refuted theorem fails. (15) the SENDING halves "
+            "of DatabaseClient._connect / _query / _disconnect are translated (Gen/DatabaseClientSendTr.lean): the payload key by key is "
+            "Payload.raw of the model's payload, sent to the server address on the client's port, re-attempt with the same ids, "
+            "_disconnect sends before pop / terminate / deactivate (C17_tr_client_*_sends), and the translated dispatcher fed the "
+            "translated client's payload does what the model's Server.receive does (C17_tr_client_to_server). "
+            "Tie: regenerated tables (Gen/Database.lean, C17_gen_*), the translated functions "
+            "(62 method instances, one obligation each), and differential rig R-db on real client/server/backup hosts behind a router.",
     "note": "C17-specific: the network between hosts is abstracted to per-direction reachability flags (validated by the rig "
             "with real ACL rules, NIC state and node power); the FTP transfers are modelled as far as the database uses them "
             "(`ftpSendFile` / `ftpRequestFile`: since round 4 proved equal to the translated FTP code; what stays hand-written is "
